@@ -5,11 +5,14 @@ One line = one scenario:
   flavour ::= (native <sig> <bool>) | (custom <sig>) | (decorated <sig> <bool>)
             | (wrapped <sig> callable|method|noncallable|absent)
   sig     ::= ((pos..) (kw..) <bool varkw> (mandatory..) ((k v)..defaults) (hidden..))
+  (runclass <sig> (<class> ...) <index> <op> ...)     -- the flavour is resolved by the model from the class table
+  class   ::= (none|<base index> <bool ownTrain> <bool ownState>)
 answer: (ok <obs> <obs> ...) with one observation per op, or bad-op.
 The user functions are the integer toy functions of harness/props/c13.py.
 -/
 import ForML.Model.Sexp
 import ForML.Model.Actor
+import ForML.Model.ActorClass
 open ForML ForML.Actor
 
 def bool? : Sexp → Option Bool
@@ -196,7 +199,24 @@ def runOps (f : Flavour Int) : Machine → List Sexp → List Sexp → Option (L
     | none => none
     | some (m', obs) => runOps f m' rest (obs :: acc)
 
+def classDef? : Sexp → Option ClassDef
+  | .list [b, t, st] => do
+    let base ← (match b with
+      | .atom "none" => some none
+      | x => x.nat?.map some)
+    pure { base := base, ownTrain := ← bool? t, ownState := ← bool? st }
+  | _ => none
+
 def stepC13 : Sexp → Sexp
+  | .list (.atom "runclass" :: sg :: .list cls :: idx :: ops) =>
+    match sig? sg, cls.mapM classDef?, idx.nat? with
+    | some sg, some tbl, some i =>
+      if i < tbl.length then
+        match runOps ((classFlavour sg tbl i).toFlavour toyUser) {} ops [] with
+        | none => .atom "bad-op"
+        | some obs => obsOk obs
+      else .atom "bad-op"
+    | _, _, _ => .atom "bad-op"
   | .list (.atom "run" :: fl :: ops) =>
     match flavour? fl with
     | none => .atom "bad-op"
